@@ -34,6 +34,8 @@ pub enum Codec {
     JsonPretty,
     /// the harness's own positional, non-self-describing format (`poscodec`): drives `visit_seq`
     Positional,
+    /// the same with struct names written and checked (RON `struct_names` style)
+    PositionalNamed,
 }
 
 /// How the value under test is embedded in what is actually sent.
@@ -60,6 +62,7 @@ impl Codec {
             Codec::JsonValue => "serde_json(Value tree)",
             Codec::JsonPretty => "serde_json(pretty, from_str)",
             Codec::Positional => "positional(visit_seq)",
+            Codec::PositionalNamed => "positional(visit_seq, struct names checked)",
         }
     }
 }
@@ -225,6 +228,7 @@ fn encode_plain<V: Wire>(codec: Codec, v: &V) -> Result<Vec<u8>, String> {
         Codec::JsonValue => serde_json::to_value(v).and_then(|t| serde_json::to_vec(&t)).map_err(|e| e.to_string()),
         Codec::JsonPretty => serde_json::to_vec_pretty(v).map_err(|e| e.to_string()),
         Codec::Positional => crate::poscodec::to_vec(v).map_err(|e| e.to_string()),
+        Codec::PositionalNamed => crate::poscodec::to_vec_opt(v, true).map_err(|e| e.to_string()),
         Codec::Cbor => serde_cbor::to_vec(v).map_err(|e| e.to_string()),
         Codec::CborPacked => serde_cbor::ser::to_vec_packed(v).map_err(|e| e.to_string()),
         #[cfg(feature = "borsh")]
@@ -239,6 +243,7 @@ fn decode_plain<V: Wire>(codec: Codec, b: &[u8]) -> Result<V, String> {
         Codec::JsonValue => serde_json::from_slice::<serde_json::Value>(b).and_then(serde_json::from_value).map_err(|e| e.to_string()),
         Codec::JsonPretty => std::str::from_utf8(b).map_err(|e| e.to_string()).and_then(|s| serde_json::from_str(s).map_err(|e| e.to_string())),
         Codec::Positional => crate::poscodec::from_slice(b).map_err(|e| e.to_string()),
+        Codec::PositionalNamed => crate::poscodec::from_reader_opt(b, true).map_err(|e| e.to_string()),
         Codec::Cbor | Codec::CborPacked => serde_cbor::from_slice(b).map_err(|e| e.to_string()),
         #[cfg(feature = "borsh")]
         Codec::Borsh => borsh::from_slice(b).map_err(|e| format!("{e:?}")),
@@ -252,6 +257,7 @@ fn encode_piped<V: Wire>(codec: Codec, v: &V, w: &mut PipeW) -> Result<(), Strin
         Codec::JsonValue => serde_json::to_value(v).and_then(|t| serde_json::to_writer(w, &t)).map_err(|e| e.to_string()),
         Codec::JsonPretty => serde_json::to_writer_pretty(w, v).map_err(|e| e.to_string()),
         Codec::Positional => crate::poscodec::to_writer(w, v).map_err(|e| e.to_string()),
+        Codec::PositionalNamed => crate::poscodec::to_writer_opt(w, v, true).map_err(|e| e.to_string()),
         Codec::Cbor => serde_cbor::to_writer(w, v).map_err(|e| e.to_string()),
         Codec::CborPacked => {
             let mut ser = serde_cbor::Serializer::new(serde_cbor::ser::IoWrite::new(w)).packed_format();
@@ -269,6 +275,7 @@ fn decode_piped<V: Wire>(codec: Codec, r: &mut PipeR) -> Result<V, String> {
         Codec::JsonValue => serde_json::from_reader::<_, serde_json::Value>(r).and_then(serde_json::from_value).map_err(|e| e.to_string()),
         Codec::JsonPretty => serde_json::from_reader(r).map_err(|e| e.to_string()),
         Codec::Positional => crate::poscodec::from_reader(r).map_err(|e| e.to_string()),
+        Codec::PositionalNamed => crate::poscodec::from_reader_opt(r, true).map_err(|e| e.to_string()),
         Codec::Cbor | Codec::CborPacked => serde_cbor::from_reader(r).map_err(|e| e.to_string()),
         #[cfg(feature = "borsh")]
         Codec::Borsh => borsh::from_reader(r).map_err(|e| format!("{e:?}")),
@@ -494,6 +501,33 @@ where
                     })
                     .collect(),
             };
+            // `Deserialize::deserialize_in_place` into an existing, LONGER value must give the same result
+            if scn.wrap == Wrap::None && matches!(scn.codec, Codec::Json | Codec::Positional) && scn.nseg <= 300 {
+                let what = format!("Piecewise<{}> with {} segments via {} ({} build), deserialize_in_place into a value that already holds {} segments", scn.kind.name(), scn.nseg, scn.codec.name(), BUILD, 2 * scn.nseg + 1);
+                let wire = guard(|| encode_plain(scn.codec, &v))
+                    .map_err(|p| ("panic".to_string(), format!("{what}: serialization panicked: {p}")))?
+                    .map_err(|e| ("codec-error".to_string(), format!("{what}: serialization failed: {e}")))?;
+                let mut place = v.clone();
+                place.segments.extend(v.segments.iter().cloned());
+                place.segments.push(Segment { end: 1.5, poly: T::from_c(&vec![0.25; nc.max(1)]) });
+                let r = guard(|| match scn.codec {
+                    Codec::Json => {
+                        let mut de = serde_json::Deserializer::from_slice(&wire);
+                        serde::Deserialize::deserialize_in_place(&mut de, &mut place).map_err(|e| e.to_string())
+                    }
+                    _ => crate::poscodec::from_slice_in_place(&wire, &mut place).map_err(|e| e.to_string()),
+                });
+                match r {
+                    Err(p) => return Err(("panic".into(), format!("{what}: panicked: {p}"))),
+                    Ok(Err(e)) => return Err(("codec-error".into(), format!("{what}: failed: {e}"))),
+                    Ok(Ok(())) => {
+                        if place != v {
+                            return Err(("roundtrip".into(), format!("{what}: the result has {} segments and differs from the value sent", place.segments.len())));
+                        }
+                        cov.hit("transfers_deserialize_in_place");
+                    }
+                }
+            }
             roundtrip(
                 &v,
                 &|v: &Piecewise<T>, out: &mut Vec<u64>| {
@@ -587,6 +621,7 @@ pub fn check_one(scn: &PipeScn, cov: &mut Cov, prog: &Progress) -> Result<u64, (
         Kind::I(7) => go!(IntOfLog<Poly7>),
         Kind::I(_) => go!(IntOfLog<Poly8>),
         Kind::Q => go!(IntOfLogPoly4),
+        Kind::W => go!(Piecewise<Poly0>),
         Kind::N => Ok(0),
     }
 }
@@ -632,9 +667,9 @@ fn gen_num(rng: &mut Rng, finite_only: bool) -> f64 {
 
 fn codecs() -> &'static [Codec] {
     if cfg!(feature = "borsh") {
-        &[Codec::Json, Codec::Cbor, Codec::CborPacked, Codec::JsonValue, Codec::JsonPretty, Codec::Positional, Codec::Positional, Codec::Borsh, Codec::Borsh, Codec::Borsh]
+        &[Codec::Json, Codec::Cbor, Codec::CborPacked, Codec::JsonValue, Codec::JsonPretty, Codec::Positional, Codec::PositionalNamed, Codec::Borsh, Codec::Borsh, Codec::Borsh]
     } else {
-        &[Codec::Json, Codec::Cbor, Codec::CborPacked, Codec::JsonValue, Codec::JsonPretty, Codec::Positional, Codec::Positional]
+        &[Codec::Json, Codec::Cbor, Codec::CborPacked, Codec::JsonValue, Codec::JsonPretty, Codec::Positional, Codec::PositionalNamed]
     }
 }
 
@@ -811,6 +846,7 @@ fn from_json(v: &Value) -> Result<PipeScn, String> {
         "serde_json(Value tree)" => Codec::JsonValue,
         "serde_json(pretty, from_str)" => Codec::JsonPretty,
         "positional(visit_seq)" => Codec::Positional,
+        "positional(visit_seq, struct names checked)" => Codec::PositionalNamed,
         s => return Err(format!("bad codec {s}")),
     };
     if codec == Codec::Borsh && !cfg!(feature = "borsh") {
@@ -875,6 +911,7 @@ impl World for C18 {
                         Codec::JsonValue => "codec_serde_json_value_tree",
                         Codec::JsonPretty => "codec_serde_json_pretty_from_str",
                         Codec::Positional => "codec_positional_visit_seq",
+                        Codec::PositionalNamed => "codec_positional_named",
                     });
                     cov.hit(match base.shape {
                         Shape::Knot => "shape_knot",
